@@ -11,6 +11,8 @@
 #include <adm/common_definitions.hpp>
 #include <regex>
 #include <chrono>
+#include <csignal>
+#include <unistd.h>
 #include "perturb.hpp"
 
 namespace {
@@ -519,8 +521,17 @@ template <typename F> char outcome(F f, std::string& note) {
 }
 // fuzz <hex>: every entry point and option on arbitrary bytes; one letter per call: R returned, T threw (std::exception),
 // X threw something else, I returned a document that breaks an invariant
+extern "C" void fuzz_alarm(int) {
+  static const char msg[] = "<hang-alarm>\n";
+  ssize_t r = write(1, msg, sizeof msg - 1);
+  (void)r;
+  _exit(3);
+}
 std::string do_fuzz(const std::vector<std::string>& t) {
-  std::string bytes = t.size() > 1 ? from_hex(t[1]) : std::string();
+  std::string bytes = (t.size() > 1 && t[1] != "-") ? from_hex(t[1]) : std::string();
+  unsigned limit = t.size() > 2 ? static_cast<unsigned>(std::stoul(t[2])) : 0;
+  if (limit) { signal(SIGALRM, fuzz_alarm); alarm(limit); }      // a call that does not come back ends the process
+  struct Disarm { ~Disarm() { alarm(0); } } disarm;
   std::string res, note;
   auto t0 = std::chrono::steady_clock::now();
   for (auto po : {xml::ParserOptions::none, xml::ParserOptions::recursive_node_search, xml::ParserOptions::permit_time_reference_mismatch,
